@@ -14,24 +14,25 @@ import (
 	"time"
 
 	"verifsim/harness"
+	"verifsim/sim"
 	"verifsim/tape"
 )
 
 type Job struct {
-	Mode      string   `json:"mode"` // c09 c10 c14 c20 replay det
-	Property  string   `json:"property"`
-	Seed      uint64   `json:"seed"`
-	Worker    int      `json:"worker"`
-	Workers   int      `json:"workers"`
-	BudgetS   float64  `json:"budget_s"`
-	MaxRuns   int      `json:"max_runs"`
-	RunFrom   int      `json:"run_from"`
-	ShrinkS   float64  `json:"shrink_s"`
-	Out       string   `json:"out"`
-	Replay    *Replay  `json:"replay,omitempty"`
-	Thorough  bool     `json:"thorough"`
-	OnlyPkgs  []string `json:"only_pkgs,omitempty"`
-	Det       bool     `json:"det"` // determinism mode: no time-dependent behaviour
+	Mode     string   `json:"mode"` // c09 c10 c14 c20 replay det
+	Property string   `json:"property"`
+	Seed     uint64   `json:"seed"`
+	Worker   int      `json:"worker"`
+	Workers  int      `json:"workers"`
+	BudgetS  float64  `json:"budget_s"`
+	MaxRuns  int      `json:"max_runs"`
+	RunFrom  int      `json:"run_from"`
+	ShrinkS  float64  `json:"shrink_s"`
+	Out      string   `json:"out"`
+	Replay   *Replay  `json:"replay,omitempty"`
+	Thorough bool     `json:"thorough"`
+	OnlyPkgs []string `json:"only_pkgs,omitempty"`
+	Det      bool     `json:"det"` // determinism mode: no time-dependent behaviour
 }
 
 type Replay struct {
@@ -129,6 +130,8 @@ func (w *worker) startWatchdog(limit time.Duration) {
 		}
 	}()
 }
+
+var dbgLines []string
 
 type worker struct {
 	job      *Job
@@ -250,22 +253,22 @@ func (w *worker) oneRun(prop string, run int, t *tape.Tape, forcePkg string, log
 }
 
 type verdict struct {
-	pkg      *harness.Pkg
-	plan     *harness.RunPlan
-	violated bool
-	key      string
-	observed string
-	expected string
-	trace    []string
-	logParts []string
-	nontrivial bool
+	pkg         *harness.Pkg
+	plan        *harness.RunPlan
+	violated    bool
+	key         string
+	observed    string
+	expected    string
+	trace       []string
+	logParts    []string
+	nontrivial  bool
 	distinctKey string
-	requests int
-	steps    int
-	probes   map[string]int
-	counters map[string]int
-	harnessErr string
-	sample   map[string]any
+	requests    int
+	steps       int
+	probes      map[string]int
+	counters    map[string]int
+	harnessErr  string
+	sample      map[string]any
 }
 
 func (w *worker) loop() {
@@ -277,6 +280,9 @@ func (w *worker) loop() {
 			break
 		}
 		t := tape.NewGen(job.Seed, prop, uint64(run))
+		if os.Getenv("VERIF_DUMP_LOG") != "" && sim.Debug == nil {
+			sim.Debug = func(l string) { dbgLines = append(dbgLines, l) }
+		}
 		v := w.oneRun(prop, run, t, "", false)
 		if v.harnessErr != "" {
 			res.HarnessErr = fmt.Sprintf("run %d (pkg %s): %s", run, v.pkg.Name, v.harnessErr)
@@ -296,6 +302,11 @@ func (w *worker) loop() {
 			w.distinct[hash64(v.pkg.Name, v.distinctKey)] = true
 		}
 		w.logH = hash64(fmt.Sprint(w.logH), fmt.Sprint(run), fmt.Sprint(t.Rec), strings.Join(v.logParts, "|"), v.key)
+		if dir := os.Getenv("VERIF_DUMP_LOG"); dir != "" {
+			os.WriteFile(filepath.Join(dir, fmt.Sprintf("run-%d.sched", run)), []byte(strings.Join(dbgLines, "\n")+"\n"), 0o644)
+			dbgLines = dbgLines[:0]
+			os.WriteFile(filepath.Join(dir, fmt.Sprintf("run-%d.log", run)), []byte(fmt.Sprint(t.Rec)+"\n"+strings.Join(v.logParts, "\n")+"\n"+v.key+"\n"+fmt.Sprint(v.probes)+"\n"+strings.Join(v.trace, "\n")+"\n"), 0o644)
+		}
 		if v.sample != nil && len(res.Samples) < 3 {
 			v.sample["run"] = run
 			sb, _ := json.Marshal(v.sample)
